@@ -1014,7 +1014,7 @@ def run(R: Run):
     workdir = tempfile.mkdtemp(prefix="c05-")
     try:
         n_e2e = R.pick(170, 4200)
-        t_budget = R.pick(45, 520)
+        t_budget = R.pick(45, 440)
         t0 = time.time()
         corpus = [
             dict(shape=[8, 200], axis="YX", ns=1, dtype="uint8", blocksize=[32], comp="deflate", predictor=None, nodata=None,
@@ -1144,7 +1144,7 @@ def run(R: Run):
                 os.unlink(d)
             R.oracle(not bad, bad[0][0] if bad else "handoff", case, "; ".join(w for _, w in bad[:3]), sig="handoff")
 
-        for k in range(R.pick(25, 400)):
+        for k in range(R.pick(25, 300)):
             try:
                 handoff_case(k)
             except Exception:  # pylint: disable=broad-except
